@@ -8,6 +8,7 @@ R3 explicit names pass through name resolution unchanged
 from __future__ import annotations
 
 import ast
+import re
 
 from ..core import AnalysisError, NotConstant, Repo, Report, call_name, calls_in, chain, class_const, module_const, norm, walk_local
 from ..dataflow import DefUse
@@ -259,6 +260,33 @@ def run(repo: Repo, rep: Report, tier: str) -> None:
                         caps.append((m, n))
         rep.check(not caps, "C13-R7", f"{c.name}: no piece of the registry is captured in an attribute", "none" if not caps else
                   f"`{norm(caps[0][1])[:90]}` keeps a piece of the registry the holder was built with", (caps[0][0].loc(caps[0][1]) if caps else c.loc()))
+
+    # ---------------- R8 ---------------------------------------------------------------
+    rep.rule("C13-R8", "a usage entry answers for its own node only: wherever resolve_signal_name is given an entry, the type it resolves is that node's own type (the entry of "
+             "`op.node_id` with `op.output_type`, the entry of a reference's source with that reference's type); resolving another name — a member key of a bundle "
+             "constant, say — against the entry returns the entry's resolved name (`signal-each` for a bundle) instead of the member's")
+    n8 = 0
+    for f8 in repo.all_funcs():
+        if ".layout." not in f8.module.name + ".":
+            continue
+        c8 = None
+        for call8 in calls_in(f8.node, "resolve_signal_name"):
+            if len(call8.args) < 2:
+                continue
+            c8 = c8 or __import__("fv.rules.util", fromlist=["canon"]).canon(f8)
+            a8, e8 = c8.text(call8.args[0]), c8.text(call8.args[1])
+            n8 += 1
+            m_node = re.fullmatch(r"self\.signal_usage\.get\((.+)\.node_id\)", e8)
+            m_src = re.fullmatch(r"self\.signal_usage\.get\((.+)\.source_id\)", e8)
+            if m_node:
+                ok8 = a8 == f"{m_node.group(1)}.output_type"
+            elif m_src:
+                ok8 = a8 == f"{m_src.group(1)}.signal_type"
+            else:
+                ok8 = e8 in ("None",) or e8 in f8.params or a8 in f8.params  # forwarded unchanged from the caller
+            rep.check(ok8, "C13-R8", f"{f8.short}: resolve_signal_name({__import__('fv.rules.util', fromlist=['ckey']).ckey(f8, call8.args[0])}, <entry>) pairs a type with its own entry",
+                      f"entry {e8[:60]}" if ok8 else f"type `{a8[:60]}` is resolved against the entry `{e8[:60]}` of a different node", f8.loc(call8))
+    rep.floor("C13-R8", "resolve_signal_name calls with an entry", n8, 5)
 
 
 
